@@ -257,3 +257,48 @@ Definition shown_matches (f : filters) (health : list nat) (ms : list msg) (ps :
 (* forward then back: c0 -Fwd-> c1 -Back-> c2 *)
 Definition fwd_back_ok (c0 c1 c2 : Z) : bool :=
   Z.eqb c1 c0 || Z.eqb c2 c0.
+
+(* ------------------------------------------------------------------ (4b) several clients: the view of a client *)
+
+(* the records of a client that match the flags, in order: what the view of
+   the selected client has to be, whenever a filter was toggled and whoever
+   was selected then *)
+Definition matching_idxs (f : filters) (health : list nat) (ms : list msg) (ps : list parsed)
+    : list nat :=
+  filter (tx_matches f health ms ps) (seq 0 (length ms)).
+
+(* codes: 66 the view lists a record that does not match (or no record at
+   all), 67 the view lacks a record that matches, 660 the right records in
+   another order / repeated *)
+Definition view_codes (f : filters) (health : list nat) (ms : list msg) (ps : list parsed)
+    (filtered : list nat) : list N :=
+  let snd := filtered_sound f health ms ps filtered in
+  let cmp := forallb (fun i => mem_nat i filtered) (matching_idxs f health ms ps) in
+  if lnat_eqb filtered (matching_idxs f health ms ps) then []
+  else (if snd then [] else [66%N]) ++ (if cmp then [] else [67%N]) ++
+       (if snd && cmp then [660%N] else []).
+
+Definition view_exact (f : filters) (health : list nat) (ms : list msg) (ps : list parsed)
+    (filtered : list nat) : bool :=
+  lnat_eqb filtered (matching_idxs f health ms ps).
+
+(* the 1-based cursors new, new+1, ... below `upper` *)
+Definition cursors_from (new upper : Z) : list Z :=
+  map (fun i => (new + Z.of_nat i)%Z) (seq 0 (Z.to_nat (upper - new))).
+
+(* a cursor command asked for `new` (scanning down when back, else up) and
+   the cursor came to rest on c1. codes: 68 c1 is a record that does not
+   match the flags; 69 a matching record lies between `new` and c1 in the
+   scanning direction (it was passed over), or c1 is not in that direction at
+   all although a matching record is *)
+Definition scan_codes (f : filters) (health : list nat) (ms : list msg) (ps : list parsed)
+    (new c1 : Z) (back : bool) : list N :=
+  let lenz := Z.of_nat (length ms) in
+  let m := fun k : Z => Z.ltb 0 k && Z.leb k lenz && tx_matches f health ms ps (Z.to_nat (k - 1)) in
+  (if Z.ltb 0 c1 && negb (m c1) then [68%N] else []) ++
+  (if back then
+     let lower := if Z.leb 1 c1 && Z.leb c1 new then c1 else 0%Z in
+     if existsb m (cursors_from (lower + 1) (new + 1)) then [69%N] else []
+   else
+     let upper := if Z.leb new c1 && Z.leb c1 lenz then c1 else (lenz + 1)%Z in
+     if existsb m (cursors_from new upper) then [69%N] else []).
